@@ -370,12 +370,16 @@ def main():
 Definition pid_of (n : string) : option Z := pd_get n amp_names.
 Definition info (p : Z) : option pinfo := zlookup p amp_particles.
 """
-    terms = [f"vcontent (convert pid_of info known_spinfactors 40 false {ampgen_gen.coq_optfile(c['opt'])})" for c in cases]
-    model = vlib.run_model("C19", ["Lib.PyDict", "Gen.GenAmp", "Amp.Syntax", "Amp.Read", "Amp.Perm", "Amp.GooFit", "Amp.Session", "Amp.Convert"],
+    # the model reads the same text as the implementation (coq/Amp/Text.v), not a structure prepared in Python
+    def of_text(c, body):
+        return (f"Definition f@ := Eval vm_compute in parse_text {vlib.cstr(Path(c['path']).read_text())}.",
+                f"match f@ with Some f => {body} | None => VErr \"syntax\" end")
+    terms = [of_text(c, "vcontent (convert pid_of info known_spinfactors 40 false f)") for c in cases]
+    model = vlib.run_model("C19", ["Lib.PyDict", "Gen.GenAmp", "Amp.Syntax", "Amp.Text", "Amp.Read", "Amp.Perm", "Amp.GooFit", "Amp.Session", "Amp.Convert"],
                            "fun v : val => v", terms, shard=4, preamble=pre)
 
-    sterms = [f"vsymout (symbols pid_of info known_spinfactors 40 false {ampgen_gen.coq_optfile(c['opt'])})" for c in cases]
-    smodel = vlib.run_model("C19s", ["Lib.PyDict", "Gen.GenAmp", "Amp.Syntax", "Amp.Read", "Amp.Perm", "Amp.GooFit", "Amp.Session", "Amp.Convert",
+    sterms = [of_text(c, "vsymout (symbols pid_of info known_spinfactors 40 false f)") for c in cases]
+    smodel = vlib.run_model("C19s", ["Lib.PyDict", "Gen.GenAmp", "Amp.Syntax", "Amp.Text", "Amp.Read", "Amp.Perm", "Amp.GooFit", "Amp.Session", "Amp.Convert",
                                      "Amp.Symbols"], "fun v : val => v", sterms, shard=4, preamble=pre)
 
     def sym_canon(mv):
